@@ -10,7 +10,7 @@ MCDsls == IF IOEnv.MCBIG = "1" THEN {2, 3} ELSE {2}
 MCKinds == {"drop_semi", "drop_close", "open_str", "trunc_kw", "num_huge", "str_to_num",
             "bad_opt", "open_comment", "nul", "dup", "del", "eof_mid"}
 P == [dsls |-> MCDsls, dict |-> [d \in 1..NSkel |-> {"@Real", "@Times"}],
-      all |-> {"@Real", "@Times", "@InnerRadius"}, insdsls |-> MCDsls,
+      all |-> {"@Real", "@Times", "@InnerRadius"}, insdsls |-> MCDsls, fordsls |-> MCDsls,
       kinds |-> MCKinds, shapes |-> {"qstr", "nummap"}, fshapes |-> {"eof"}, foreign |-> {"@Profile"},
       maxmut |-> 2, nodsl |-> FALSE]
 Init == st = InitState
